@@ -47,8 +47,14 @@ func (c *corruptStore) point(what string) {
 	}
 }
 
-func (c *corruptStore) FirstIndex() (uint64, error) { c.point("FirstIndex"); return c.LogStore.FirstIndex() }
-func (c *corruptStore) LastIndex() (uint64, error)  { c.point("LastIndex"); return c.LogStore.LastIndex() }
+func (c *corruptStore) FirstIndex() (uint64, error) {
+	c.point("FirstIndex")
+	return c.LogStore.FirstIndex()
+}
+func (c *corruptStore) LastIndex() (uint64, error) {
+	c.point("LastIndex")
+	return c.LogStore.LastIndex()
+}
 func (c *corruptStore) DeleteRange(a, b uint64) error {
 	c.point("DeleteRange")
 	return c.LogStore.DeleteRange(a, b)
